@@ -37,7 +37,9 @@ def step (d : DSt) (ws : List String) : DSt × String :=
   | ["search", w, depth], _ =>
     match w.toNat?, depth.toNat? with
     | some w, some depth =>
-      (match searchTorn extractedGuards searchOrds w depth (init 0 0) [] with
+      (match (if NexoVerif.Extracted.tryReadTestsTranslated then
+                searchTornT NexoVerif.Extracted.tryReadEarlyReject NexoVerif.Extracted.tryReadAccept searchOrds w depth (init 0 0) []
+              else searchTorn extractedGuards searchOrds w depth (init 0 0) []) with
        | none => (d, "none")
        | some tr => (d, "torn " ++ " ".intercalate (tr.map showLabel)))
     | _, _ => (d, "bad-op")
